@@ -290,8 +290,12 @@ def run_h2h1_concurrency(sc: dict, keep_log: bool = False) -> dict:
                 frames.append({"s": s["k"], "t": "D", "i": 0, "end": True})
             steps.append({"pause": max(0.0, s["at"] - prev), "frames": frames, "cuts": [], "gaps": []})
             prev = s["at"]
-        cl = HP.H2Client(w, tls, {"streams": pstreams, "steps": steps,
-                                  "finish": {"timeout": 45.0, "close": sc.get("client_close", "goaway")}})
+        finish = {"timeout": 45.0, "close": sc.get("client_close", "goaway")}
+        if sc.get("leave_after") is not None:
+            # the client gives up this long after its last frame, whatever is still outstanding (streams waiting for an
+            # upstream slot, connects in flight)
+            finish["hard_timeout"] = float(sc["leave_after"])
+        cl = HP.H2Client(w, tls, {"streams": pstreams, "steps": steps, "finish": finish})
         await cl.start()
         await cl.run_steps()
         await cl.finish()
@@ -369,7 +373,12 @@ def run_h2h1_concurrency(sc: dict, keep_log: bool = False) -> dict:
     for t_, d_ in sorted(edges, key=lambda e: (e[0], e[1])):
         cur += d_
         live = max(live, cur)
-    return {"max_open": max_open, "attempts": len(attempts), "refused": refused, "early_closed": st["early_closed"],
+    # server-connection hooks as the first addon saw them, per server connection, in order
+    seqs: dict = {}
+    for _t, name, data in w.hooks_fired:
+        if name in ("server_connect", "server_connected", "server_connect_error", "server_disconnected"):
+            seqs.setdefault(data.server.id, []).append(name)
+    return {"server_hook_seqs": [seqs[k] for k in seqs], "max_open": max_open, "attempts": len(attempts), "refused": refused, "early_closed": st["early_closed"],
             "streams": len(cl.sid_of), "streams_answered": answered, "streams_failed": failed, "streams_pending": pending,
             "foreign": foreign, "open_at_end": w.net.open_server.get(ADDR, 0), "reached_limit": max_open >= LIMIT,
             "leaked_pipes": leaked, "max_open_excl_leaked": live,
